@@ -1628,7 +1628,10 @@ func ValuesLookTheSame(left E, right E) bool {
 		}
 
 	case *EUnary:
-		if b, ok := right.(*EUnary); ok && a.Op == b.Op && ValuesLookTheSame(a.Value.Data, b.Value.Data) {
+		// "typeof x" never throws but "typeof (0, x)" does if "x" is not declared
+		if b, ok := right.(*EUnary); ok && a.Op == b.Op &&
+			a.WasOriginallyTypeofIdentifier == b.WasOriginallyTypeofIdentifier &&
+			ValuesLookTheSame(a.Value.Data, b.Value.Data) {
 			return true
 		}
 
